@@ -54,6 +54,10 @@ CLAIMS = {
         "text": "Theorems `fmt_total`, `discover_total` (on the repaired code never a panic), `discover_panics_iff` (the UNREPAIRED walk panics exactly when a usize/isize/schema node is reachable — the defect found and fixed in /repo, fix: 5cca30a), `discover_exact`/`discoverSet_exact` (the collected set is exactly the schema itself plus every schema nested anywhere inside it, duplicate-free), `render_mentions` (+ struct/enum/field/variant variants: every declared name occurs as a contiguous substring of the top-level rendering), `render_tuple` (array-vs-tuple rule). Tied to the code by comparing renderings byte-for-byte and discovered sets (sorted) on all kinds and random trees.",
         "note": GENERIC_NOTE,
     },
+    "C04": {
+        "text": "Theorems `dec_total` (decoding never panics, for every type and byte string), `dec_consumes_prefix`/`dec_rest_length_le`/`dec_reads_only_prefix` (the cursor only moves forward inside the input; the result depends only on the consumed prefix), `borrow_position_str/_bytes/_tuple` + `tuple_component_position` (a borrowed payload sits in the input right after its length varint, components occupy consecutive sub-ranges), `wont_implement` (any/identifier/ignored are refused), `hint_le_remaining`/`prealloc_bound`/`prealloc_bytes_le` (the pre-allocation a sequence visitor makes is bounded by the remaining input bytes whatever length the input claims), `dec_minBytes`/`elements_lt_consumed`/`elements_le_bytes`/`str_payload_le` (element counts and payload lengths are bounded by the input length for element types occupying >= 1 byte). PARTIAL: real out-of-bounds reads and real allocation are observed at run time (guard pages on both sides of the input and around the reader scratch buffer, counting allocator on 10 concrete heap types with adversarial length prefixes up to u64::MAX), not proved.",
+        "note": GENERIC_NOTE + " Memory safety of the unsafe pointer code and allocator behaviour are runtime facts outside any executable model; serde's cautious() and Vec growth are modelled.",
+    },
 }
 
 _PENDING = "not claimed yet: the technique applies (see DESIGN.md §6); model/correspondence for this property is still being built in this session"
